@@ -255,6 +255,7 @@ def units(ctx):
 
 
 SPEC = Spec(
+    lean=['Folds.lean'],
     prop=PROP, level="other",
     functions=[(CPA, "CPGraph._attribute_edge"), (CPA, "bound_by"), (CPA, "CPGraph.get_critical_path_breakdown"), (CPA, "CPGraph.summary")],
     units=units, bounded=[Bounded("breakdown_vs_graph", bounded)],
